@@ -1086,8 +1086,10 @@ def c27(run):
 def c28(run):
     run.mc_leg("mc_machine", "MC_Machine", "MC_Machine2.cfg" if run.tier == "thorough" else "MC_Machine.cfg", workers=16, timeout=3000, heap="16g")
     run.trace_leg("machine", ["machine", "kind=all"], verdict=["obs", "obsprop", "panic"])
+    run.trace_leg("long", ["machine", "kind=long", "steps=%d" % (70000 if run.tier == "thorough" else 8700)], verdict=["obs", "obsprop", "panic"])
     return run.finish(
-        rule="all machine scenarios in non-strict and strict mode; the observer map is compared after every event with "
+        rule="all machine scenarios in non-strict and strict mode, and one machine stepped 8700 (thorough: 70000) times in a "
+             "row (a prologue executed once, a long loop, rare excursions); the observer map is compared after every event with "
              "the access set of the reference model (READ/WRITTEN/MODIFIED per address) and ObsProp is evaluated on "
              "the logged marks against the full memory diff; host accesses through untracked contexts must leave it unchanged",
         level_note="MODIFIED is compared as the code defines it (value or mask changed); ObsProp states only what the property does")
